@@ -37,7 +37,7 @@ func vfC36Shutdown(s *Serf) error {
 //vf:unwind 12
 //vf:override (*github.com/hashicorp/serf/serf.Serf).Query = github.com/hashicorp/serf/serf.vfC36Query
 //vf:override (*github.com/hashicorp/serf/serf.Serf).Shutdown = github.com/hashicorp/serf/serf.vfC36Shutdown
-//vf:bound replies quick=0..3 thorough=0..4 replies of 6 symbolic kinds; local address symbolic (4 bytes), port symbolic
+//vf:bound replies quick=0..3 thorough=0..4 replies of 7 symbolic kinds; local address symbolic (4 bytes), port symbolic
 //vf:stub Query -> pre-filled closed response channel; Shutdown -> counter; LocalNode -> harness node; decodeMessage -> identity codec on tokens
 //vf:nonative
 func VfC36_Vote() {
@@ -55,7 +55,7 @@ func VfC36_Vote() {
 	for i := 0; i < n; i++ {
 		kind := vfInt("kind")
 		vfAssume(kind >= 0)
-		vfAssume(kind <= 5)
+		vfAssume(kind <= 6)
 		var payload []byte
 		switch kind {
 		case 0:
@@ -73,6 +73,10 @@ func VfC36_Vote() {
 			payload, _ = encodeMessage(messageConflictResponseType, &Member{Name: "self", Addr: other, Port: port}, false)
 			valid++
 			matching += vfB2I(other.Equal(ip))
+		case 6:
+			// a valid reply that carries only the name (address and port absent): a vote for nobody
+			payload, _ = encodeMessage(messageConflictResponseType, &Member{Name: "self"}, false)
+			valid++
 		case 5:
 			oport := vfU16("oport")
 			payload, _ = encodeMessage(messageConflictResponseType, &Member{Name: "self", Addr: ip, Port: oport}, false)
